@@ -456,7 +456,8 @@ def pertBwdOrd (m : Model) (ord : List Nat → List Nat) (l : Live) (reset : Boo
                lft := fun t => if t < m.nT then -1 else p.lft t } else p
   let p1 : Pert :=
     { base with lft := fun t => if tl.contains t then cpl else base.lft t
-                lst := fun t => if tl.contains t then cpl - l.rem t else base.lst t }
+                lst := fun t => if tl.contains t then cpl - l.rem t else base.lst t
+                done := fun _ => false }
   (bwdLoopOrd m ord l (m.nT + 1) (ord tl) p1, cpl)
 
 /-- `pert` with the iteration order of every task set given by `ord` (`pert` itself is
@@ -508,7 +509,7 @@ def OrdOK (n : Nat) (ord : List Nat → List Nat) : Prop :=
 theorem ordOK_canon (n : Nat) : OrdOK n (canonSet n) := fun _ _ => mem_canonSet
 
 /-- `gLoop` with the order of the next wave given by `ord` -/
-def gLoopOrd (ord : List Nat → List Nat) (fire : Rat → Rat → Bool) (useB : Bool) (w : Nat → Rat)
+def gLoopOrd (ord : List Nat → List Nat) (fire : Bool → Rat → Rat → Bool) (useB : Bool) (w : Nat → Rat)
     (H : Nat → List Nat) : Nat → List Nat → AB → AB
   | 0, _, s => s
   | fuel + 1, wave, s =>
@@ -517,7 +518,7 @@ def gLoopOrd (ord : List Nat → List Nat) (fire : Rat → Rat → Bool) (useB :
 
 section generic
 variable {n : Nat} {G H : Nat → List Nat} {w : Nat → Rat} {base : Rat}
-  {fire : Rat → Rat → Bool} {useB : Bool} {E : Nat → Rat} {d : Nat → Nat}
+  {fire : Bool → Rat → Rat → Bool} {useB : Bool} {E : Nat → Rat} {d : Nat → Nat}
   {ord : List Nat → List Nat}
 
 theorem mem_ordNext (ho : OrdOK n ord) {W : List Nat} {x : Nat} :
@@ -564,7 +565,7 @@ theorem gLoopOrd_final (ho : OrdOK n ord) (hy : Hyp n G H w base fire E d) :
     intro k W s hI hd x hx
     have := JW.final hy hI.jw hx (by have := hd x hx; omega)
     simp only [gLoopOrd]
-    exact ⟨this.2, by rw [this.1.2.2, this.2]⟩
+    exact ⟨this.2, by rw [this.1.1.2.2, this.2]⟩
   | succ fuel ih =>
     intro k W s hI hd x hx
     simp only [gLoopOrd]
@@ -578,7 +579,7 @@ theorem gLoopOrd_final (ho : OrdOK n ord) (hy : Hyp n G H w base fire E d) :
         have := hI.W_all z hz hdz
         simp [List.isEmpty_iff.1 hemp] at this
       have := JW.final hy hI.jw hx (by have := hall x hx; omega)
-      exact ⟨this.2, by rw [this.1.2.2, this.2]⟩
+      exact ⟨this.2, by rw [this.1.1.2.2, this.2]⟩
     · exact ih (k + 1) _ _ (Inv_step_ord ho hy hI) (fun y hy' => by have := hd y hy'; omega) x hx
 
 theorem gLoopOrd_correct (ho : OrdOK n ord) (hy : Hyp n G H w base fire E d) (W0 : List Nat) (s : AB)
@@ -587,11 +588,12 @@ theorem gLoopOrd_correct (ho : OrdOK n ord) (hy : Hyp n G H w base fire E d) (W0
     (hfresh : ∀ x, x < n → G x ≠ [] → Fresh base fire s x) :
     ∀ x, x < n → (gLoopOrd ord fire useB w H (n + 1) W0 s).A x = E x ∧
         (gLoopOrd ord fire useB w H (n + 1) W0 s).B x = E x + w x := by
-  have hset : ∀ x, x < n → G x = [] → IsSet w base E s x := by
+  have hset : ∀ x, x < n → G x = [] → IsSet G w base E s x := by
     intro x hx h0
     obtain ⟨h1, h2⟩ := hhead x hx h0
     have : E x = base := by rw [hy.hE x hx, h0]; rfl
-    refine ⟨by rw [h1]; exact Rat.le_refl, by rw [h1, this]; exact Rat.le_refl, by rw [h2, h1]⟩
+    exact ⟨⟨by rw [h1]; exact Rat.le_refl, by rw [h1, this]; exact Rat.le_refl, by rw [h2, h1]⟩,
+      Or.inl h0⟩
   apply gLoopOrd_final ho hy (n + 1) 0 W0 s
   · refine ⟨⟨?_, ?_, ?_⟩, ?_, ?_⟩
     · intro x hx
@@ -618,7 +620,7 @@ end generic
 
 section frame
 variable {n : Nat} {H : Nat → List Nat} {w : Nat → Rat}
-  {fire : Rat → Rat → Bool} {useB : Bool} {ord : List Nat → List Nat}
+  {fire : Bool → Rat → Rat → Bool} {useB : Bool} {ord : List Nat → List Nat}
 
 /-- a wave of tasks of the model writes nothing outside the model -/
 theorem gWave_frame (hH : ∀ x, x < n → ∀ y ∈ H x, y < n) (W : List Nat) (hW : ∀ i ∈ W, i < n)
@@ -695,14 +697,14 @@ theorem mem_ord_tails {m : Model} {ord : List Nat → List Nat} (ho : OrdOK m.nT
 
 /-- the start state of the forward pass, as an `AB` pair -/
 def fwdStart (m : Model) (time : Rat) (l : Live) : AB :=
-  ⟨fun t => if t < m.nT then time else l.est t,
-   fun t => if t < m.nT && (m.task t).inputs.isEmpty then time + l.rem t else l.eft t⟩
+  { A := fun t => if t < m.nT then time else l.est t
+    B := fun t => if t < m.nT && (m.task t).inputs.isEmpty then time + l.rem t else l.eft t }
 
 theorem pertFwdOrd_sim {m : Model} {ord : List Nat → List Nat} (ho : OrdOK m.nT ord)
     (hfs : FSOnly m) (time : Rat) (l : Live) :
     pertFwdOrd m ord time l =
       fput (gLoopOrd ord ffire false l.rem (Hm m) (m.nT + 1) (ord (heads m)) (fwdStart m time l))
-        ⟨l.est, l.eft, l.lst, l.lft⟩ := by
+        { est := l.est, eft := l.eft, lst := l.lst, lft := l.lft } := by
   rw [← fwdLoopOrd_sim ho hfs l _ _ _ _ (fun i hi => ((mem_ord_heads ho).1 hi).1)]
   rfl
 
@@ -721,8 +723,8 @@ theorem pertFwdOrd_correct {m : Model} {ord : List Nat → List Nat} (ho : OrdOK
 
 /-- the start state of the backward pass (negated), as an `AB` pair -/
 def bwdStart (m : Model) (l : Live) (p : Pert) (cpl : Rat) : AB :=
-  ⟨fun t => -(if (tails m).contains t then cpl else if t < m.nT then -1 else p.lft t),
-   fun t => -(if (tails m).contains t then cpl - l.rem t else if t < m.nT then -1 else p.lst t)⟩
+  { A := fun t => -(if (tails m).contains t then cpl else if t < m.nT then -1 else p.lft t)
+    B := fun t => -(if (tails m).contains t then cpl - l.rem t else if t < m.nT then -1 else p.lst t) }
 
 theorem pertBwdOrd_sim {m : Model} {ord : List Nat → List Nat} (ho : OrdOK m.nT ord)
     (hfs : FSOnly m) (l : Live) (p : Pert) (cpl : Rat)
@@ -758,10 +760,9 @@ theorem pertBwdOrd_correct {m : Model} {ord : List Nat → List Nat} (ho : OrdOK
       apply Bool.eq_false_iff.2
       intro hcon
       exact h0 (mem_tails.1 (by simpa using hcon)).2
-    simp only [bwdStart, this, hx, if_true, bfire, Bool.false_eq_true, if_false, Rat.neg_neg,
-      decide_eq_true_eq]
+    simp only [bwdStart, bfire, decide_eq_true_eq]
     left
-    decide +kernel
+    trivial
 
 /-- on a finish-to-start network the result of `pertOrd`, for EVERY iteration order of the
 waves, solves the PERT/CPM equations -/
@@ -775,7 +776,7 @@ theorem pertOrd_AEqs {m : Model} {ord : List Nat → List Nat} (ho : OrdOK m.nT 
   obtain ⟨d, hd⟩ := exists_depth hg.G_lt hg.acyc
   have hyf : Hyp m.nT (Gm m) (Hm m) l.rem (time : Rat) ffire E d :=
     ⟨hg.G_lt, hg.H_lt, hg.cons, hrem, hE, hd,
-      fun pre v h => by simp only [ffire, decide_eq_false_iff_not] at h; grind,
+      fun dn pre v h => by simp only [ffire, decide_eq_false_iff_not] at h; grind,
       fun _ _ pre v _ h => by simpa [ffire] using h⟩
   have hfwd := pertFwdOrd_correct ho hfs (time : Rat) l hyf
   let pf := pertFwdOrd m ord (time : Rat) l
@@ -799,20 +800,12 @@ theorem pertOrd_AEqs {m : Model} {ord : List Nat → List Nat} (ho : OrdOK m.nT 
   obtain ⟨E', hE'⟩ := exists_lp (-cpl) l.rem hg.symm.G_lt hg.symm.acyc
   obtain ⟨d', hd'⟩ := exists_depth hg.symm.G_lt hg.symm.acyc
   have href := AEqs.of_ref hg hrem hE hge hat hE'
-  have hneg : ∀ x, x < m.nT → E' x ≤ 0 := by
-    intro x hx
-    have h1 := href.eft_le_lft hg x hx
-    have h2 := href.time_le_est hx
-    have h3 := hrem x hx
-    have h4 : (0 : Rat) ≤ (time : Rat) := by exact_mod_cast Nat.zero_le time
-    grind
   have hyb : Hyp m.nT (Hm m) (Gm m) l.rem (-cpl) bfire E' d' :=
     ⟨hg.H_lt, hg.G_lt, hg.symm.cons, hrem, hE', hd',
-      fun pre v h => by
+      fun dn pre v h => by
         simp only [bfire, decide_eq_false_iff_not] at h
         grind,
       fun x hx pre v hp h => by
-        have := hneg x hx
         simp only [bfire, decide_eq_true_eq] at h
         grind⟩
   obtain ⟨b1, b2, b3, b4⟩ := pertBwdOrd_correct ho hfs l pf cpl rfl hyb
